@@ -226,6 +226,10 @@ def _kseq_object(t, case, rng):
     name, prec, tdtype = case['subject'], case['precision'], case['tdtype']
     ncls = int(rng.choice([2, 4, 9]))
     n = int(rng.choice([12, 60, 400, 2000]))
+    if np.dtype(tdtype).kind in 'iu' and prec == 'float64' and name != 'tbuild' and rng.random() < 0.4:
+        # big batches of narrow integers: per-class sums of squares beyond 2^24 within one batch, still exact in double precision
+        n, ncls = int(rng.choice([6000, 12000])), int(rng.choice([2, 3]))
+        t.count('big_batch_cases')
     T = int(rng.integers(1, 6))
     W = 1 if name == 'tbuild' else int(rng.integers(1, 3))
     parts = list(range(ncls))
